@@ -259,11 +259,15 @@ KidBorrowed(x, which, m, a) ==
             ELSE UNCHANGED <<cnt, leaked>>
   /\ UNCHANGED <<h, nextInst, stack>> /\ Keep
 
-(* ---------------- by-value (consuming) calls: ob_take, ob_into ---------------- *)
+(* ---------------- by-value (consuming) calls: ob_take, ob_into, ob_try ---------------- *)
+(* ob_try(self, fail) -> Result<wrapped child, ()>: "ob_try_ok" behaves as ob_into, "ob_try_err" consumes the  *)
+(* payload and hands nothing back: the container's context is released by the wrapper as for ob_take           *)
+ConsumeMethods == {"ob_take", "ob_into", "ob_try_ok", "ob_try_err"}
+NoChild(m) == m \in {"ob_take", "ob_try_err"}
 (* caller half (func.rs:272-287): take the container out of the object, clone the context as a guard *)
 ConsumeBegin(x, m) ==
-  /\ Idle /\ ~IsFree(x) /\ "Ob" \in TraitsOf(x) /\ h[x].kind = "box" /\ m \in {"ob_take", "ob_into"}
-  /\ (m = "ob_into" => nextInst <= MaxInst)
+  /\ Idle /\ ~IsFree(x) /\ "Ob" \in TraitsOf(x) /\ h[x].kind = "box" /\ m \in ConsumeMethods
+  /\ (~NoChild(m) => nextInst <= MaxInst)
   /\ stack' = <<[x |-> x, m |-> m, phase |-> "called", inst |-> h[x].inst, ctxc |-> h[x].ctx,
                  refs |-> IF h[x].ctx = 0 THEN 0 ELSE 2, ret |-> 0, child |-> 0]>>
   /\ cnt' = AddRef(h[x].ctx)
@@ -281,9 +285,9 @@ ConsumeBody ==
   /\ stack # <<>> /\ stack[1].phase = "inside"
   /\ LET f == stack[1]
          v == pay[f.inst].val IN
-       IF f.m = "ob_take"
+       IF NoChild(f.m)
          THEN /\ pay' = DropPay(pay, f.inst)
-              /\ stack' = <<[f EXCEPT !.phase = "bodydone", !.ret = EffRet("ob_take", v, 0)]>>
+              /\ stack' = <<[f EXCEPT !.phase = "bodydone", !.ret = IF f.m = "ob_take" THEN EffRet("ob_take", v, 0) ELSE 0]>>
               /\ UNCHANGED nextInst
          ELSE /\ pay' = [DropPay(pay, f.inst) EXCEPT ![nextInst] = FreshPay(0, (v + 9) % Mod, "obj")]
               /\ stack' = <<[f EXCEPT !.phase = "bodydone", !.child = nextInst]>>
@@ -294,7 +298,7 @@ ConsumeBody ==
 ConsumeWrapperExit ==
   /\ stack # <<>> /\ stack[1].phase = "bodydone"
   /\ LET f == stack[1] IN
-       IF f.m = "ob_take" /\ f.ctxc # 0
+       IF NoChild(f.m) /\ f.ctxc # 0
          THEN /\ Rel(f.ctxc)
               /\ stack' = <<[f EXCEPT !.phase = "wrapperdone", !.refs = @ - 1]>>
          ELSE /\ stack' = <<[f EXCEPT !.phase = "wrapperdone"]>>
@@ -313,8 +317,8 @@ ConsumeCallerRelease(y) ==
   /\ stack # <<>> /\ stack[1].phase = "returned"
   /\ LET f == stack[1] IN
        /\ Rel(f.ctxc)
-       /\ IF f.m = "ob_take"
-            THEN /\ UNCHANGED h /\ last' = L("ret", f.ret) /\ y = f.x
+       /\ IF NoChild(f.m)
+            THEN /\ UNCHANGED h /\ last' = (IF f.m = "ob_take" THEN L("ret", f.ret) ELSE L("err", 0)) /\ y = f.x
             ELSE /\ IsFree(y)
                  /\ h' = [h EXCEPT ![y] = [kind |-> "box", t |-> "obj", tr |-> "Ra", req |-> <<>>, inst |-> f.child, ctx |-> f.ctxc]]
                  /\ last' = L("ok", 0)
